@@ -12,7 +12,8 @@ one_seed() {
   git -C /repo worktree add -q --detach "$wt" HEAD 2>/dev/null || { echo "SEED $id worktree-failed"; return; }
   ( cd "$wt" && git apply /verif/seeded/$id/patch.diff 2>/dev/null ) || { echo "SEED $id patch-does-not-apply"; git -C /repo worktree remove --force "$wt"; return; }
   PYSPIKE_EVIDENCE_DIR=$BASE/ev.$id /verif/bin/check $prop --repo "$wt" >$BASE/$id.log 2>&1; rc=$?
-  if [ $rc -eq 1 ]; then echo "SEED $id $prop reported"; else echo "SEED $id $prop MISSED rc=$rc"; fi
+  und=$(/venv/bin/python -c "import json;print('yes' if '$id' in json.load(open('/verif/seeded/UNDECIDED.json')) else 'no')")
+  if [ $rc -eq 1 ]; then echo "SEED $id $prop reported"; elif [ $rc -eq 2 ] && [ "$und" = yes ]; then echo "SEED $id $prop undecided only (exit 2; listed in seeded/UNDECIDED.json with the reason)"; else echo "SEED $id $prop MISSED rc=$rc"; fi
   git -C /repo worktree remove --force "$wt" >/dev/null 2>&1
 }
 one_neutral() {
